@@ -116,6 +116,34 @@ func ruleDeleteRewind(names ...string) func(p *Prog, l *Ledger, tier string) {
 			for _, d := range dels {
 				key := l.Key(rule, name, "delete", descOf(d.idx))
 				pos := p.Pos(d.st.Pos())
+				// deleting from the slice a `range` clause is iterating
+				if loc, _ := locOf(d.st.Addr); loc != "" {
+					ranged := false
+					for _, li := range loopsOf(fn) {
+						if li.header.Comment != "rangeindex.loop" || !li.blocks[d.st.Block()] {
+							continue
+						}
+						for _, ins := range li.header.Instrs {
+							bo, ok := ins.(*ssa.BinOp)
+							if !ok || bo.Op != token.LSS {
+								continue
+							}
+							if c, ok := bo.Y.(*ssa.Call); ok {
+								if bi, ok := c.Call.Value.(*ssa.Builtin); ok && bi.Name() == "len" {
+									if ld, ok := c.Call.Args[0].(*ssa.UnOp); ok {
+										if l2, _ := locOf(ld.X); l2 == loc {
+											ranged = true
+										}
+									}
+								}
+							}
+						}
+					}
+					if ranged {
+						l.Fail(rule, name, key, pos, name+": elements are deleted from "+loc+" inside a `range` over it: the range clause keeps the length and the positions it saw at the start, so after a deletion the element that slid into the freed position is never visited (and the tail is visited twice): cues that follow a removed one are not shifted, or are shifted twice")
+						continue
+					}
+				}
 				ph, ok := d.idx.(*ssa.Phi)
 				if !ok {
 					l.Undecide(rule, name, key, pos, "the deletion index is not a loop variable")
